@@ -470,6 +470,18 @@ func (b *idleTimeoutBody) Close() error {
 	return b.body.Close()
 }
 
+// writeTimeoutConn is a backend connection on which no single write may take longer than
+// the timeout.
+type writeTimeoutConn struct {
+	net.Conn
+	timeout time.Duration
+}
+
+func (c *writeTimeoutConn) Write(p []byte) (int, error) {
+	_ = c.Conn.SetWriteDeadline(time.Now().Add(c.timeout))
+	return c.Conn.Write(p)
+}
+
 // AddBackend adds a new backend server to the load balancer
 func (lb *LoadBalancer) AddBackend(backendCfg config.BackendConfig) error {
 	lb.mutex.Lock()
@@ -532,6 +544,19 @@ func (lb *LoadBalancer) AddBackend(backendCfg config.BackendConfig) error {
 		// Performance optimizations
 		ForceAttemptHTTP2:  true,  // Use HTTP/2 when available
 		DisableCompression: true,  // Let backend handle compression: forward Accept-Encoding and bodies untouched
+	}
+
+	// The transport bounds the wait for the response header, which only starts once the request
+	// has been sent. A backend that accepts the connection and never reads leaves an upload
+	// larger than the socket buffers stuck in the middle of being sent, with no timeout that
+	// applies: every write to a backend connection has to get through within backend_read
+	dial := transport.DialContext
+	transport.DialContext = func(ctx context.Context, network, addr string) (net.Conn, error) {
+		conn, err := dial(ctx, network, addr)
+		if err != nil {
+			return nil, err
+		}
+		return &writeTimeoutConn{Conn: conn, timeout: readTimeout}, nil
 	}
 
 	proxy.Transport = transport
